@@ -324,7 +324,7 @@ func runC07(res *vh.Result) {
 				return
 			}
 			if berr != nil {
-				sig := "C07:stopped-serving-after-" + strings.ReplaceAll(strings.Join(muts, "+"), " ", "-")
+				sig := "C07:stopped-serving-after-" + name
 				res.Violate(ci, sig, fmt.Sprintf("after datagram %d (%s from %s, %v) the UPF no longer answers a Heartbeat Request (%v)", h, name, from, muts, berr),
 					map[string]interface{}{"driver": drvName(realDrv), "sequence": seq})
 				res.Eval(vh.Sig(vh.J(seq)))
